@@ -51,7 +51,7 @@ def options_for(rng):
 def add_whole_array(rng, text, g):
     """Insert a whole-array parameter declaration and a use of it after the metadata."""
     lines = text.split("\n")
-    r, c = rng.choice([(1, 1), (1, 2), (2, 2), (2, 3), (3, 1)])
+    r, c = rng.choice([(1, 1), (1, 2), (2, 2), (2, 3), (3, 1), (1, 12), (11, 2), (3, 11)] if rng.random() < 0.3 else [(1, 1), (1, 2), (2, 2), (2, 3), (3, 1)])
     nm = "W" + str(rng.randint(0, 9))
     pn = rng.choice(["U", "mat", "M1", "p3", "ww"])
     decl = ["%s array %s[%d, %d] =" % (rng.choice(["float", "complex"]), nm, r, c), "    {%s}" % pn]
@@ -263,6 +263,13 @@ def build(rng, g):
     if rng.random() < 0.25:
         text, pn, shape = add_whole_array(rng, text, g)
         whole[pn] = shape
+    if rng.random() < 0.25:
+        # expressions over one parameter that differ only in a small integer (anything keyed on "almost the expression" confuses them)
+        ps = sorted(set(re.findall(r"\{(\w+)\}", text)))
+        p_ = rng.choice(ps) if ps else "nd"
+        forms = ["-{%s}", "-2*{%s}", "{%s} - 1", "{%s} - 2", "{%s}**-1", "{%s}**-2", "{%s} + 1", "{%s} + 2", "2*{%s}", "3*{%s}", "{%s}/2", "{%s}/3"]
+        pick_ = rng.sample(forms, rng.randint(3, 6))
+        text = text.rstrip("\n") + "\nNearDup(%s) | 0\nNearDup2(k=%s) | 1\n" % (", ".join(f % p_ for f in pick_), rng.choice(forms) % p_)
     names = set(re.findall(r"\{(\w+)\}", text))
     vals = {}
     for n in sorted(names):
